@@ -83,6 +83,10 @@ var wkinds = []wkind{
 	// child of that block, whatever the block held when the child was made)
 	{Name: "closureEarlyIf"},               // 50 g = nil; if true { if true { g = func() { READ Q } }; . ; g() }
 	{Name: "closureEarlyFunc", Func: true}, // 51 g = nil; func f() { if true { g = func() { READ Q } }; . ; g() }; f()
+	// a C-for whose CONDITION is a call of a function literal holding the payload, after an init clause that
+	// shadows a pool name: when the condition fails (exit: throw) the enclosing try resumes in the scope that
+	// was current before the loop, not in the loop's
+	{Name: "cforCondF", Func: true}, // 52 i = 0; for var a = v; func c() { . }() == 1; i++ { }
 }
 
 // ---------- spine descriptor ----------
@@ -341,6 +345,9 @@ func (b *builder) construct(kind, k int, slot []*stmt) []*stmt {
 			{Op: opCall, Name: g, Args: zeros},
 			{Op: opCall, Name: h, Args: zeros},
 		}
+	case 52:
+		return []*stmt{assign("i"+sfx, cst(0)), {Op: opCFor, Name: "i" + sfx, N: 1, Init: &stmt{Op: opVar, Name: "a", E: cst(K + 1)},
+			Cond: &cond{K: 'F', N: "c" + sfx, Fn: &fnlit{Body: slot}}}}
 	case 50, 51:
 		g, f := "g"+sfx, "f"+sfx
 		lit := &fnlit{Body: []*stmt{read("Q" + sfx)}}
